@@ -57,3 +57,4 @@ META = dict(
     design_ref="DESIGN.md §4 C19",
     technique="CBMC bounded symbolic execution of the real copy/destroy hooks with memory-leak and pointer checks, SAT",
 )
+META["text"] += ' Copies of the directory reader, the xattr writer (block chain and tree context) and the gzip compressor (against a recording zlib model) are covered as well.'
